@@ -63,6 +63,8 @@ func c15Configs(thorough bool) []lockCfg {
 	// matures at s+0.7+period, not at the whole second before it; fast blocks land inside that
 	// last fraction of a second
 	cs = append(cs, lockCfg{Name: "sub-second-block-times", Powers: []uint64{3, 2}, MaxValidators: 2, Tk2Weight: 1, Tk2Threshold: 0, Candidates: 3, SubSecond: true})
+	// an exit period shorter than the unlock period: only if the chain's own validation admits it
+	cs = append(cs, lockCfg{Name: "exit-period-shorter-than-unlock-period", Powers: []uint64{3, 2}, MaxValidators: 2, Tk2Weight: 1, Tk2Threshold: 0, Candidates: 3, ExitShorter: true})
 	return cs
 }
 
@@ -89,6 +91,13 @@ func c15Menu(c lockCfg, thorough bool) func(w *engb.World, st *engb.LState, dept
 			{DtMs: 700, Ops: []engb.LOp{ops[1]}},
 			{Dt: 1, DtMs: 1, Ops: []engb.LOp{ops[0]}},
 			{Dt: 9, DtMs: 400}, {DtMs: 200}, {DtMs: 300}, {Dt: 10}, {Dt: 19, DtMs: 999}, {Dt: 1},
+		}
+		return func(w *engb.World, st *engb.LState, depth int) []engb.LBlock { return sub }
+	}
+	if c.ExitShorter {
+		sub := []engb.LBlock{
+			{Dt: 1, Ops: []engb.LOp{ops[0]}}, {Dt: 1, Ops: []engb.LOp{ops[1]}}, {Dt: 1, Ops: []engb.LOp{ops[2]}},
+			{Dt: 1}, {Dt: 69}, {Dt: 70}, {Dt: 30}, {Dt: 100},
 		}
 		return func(w *engb.World, st *engb.LState, depth int) []engb.LBlock { return sub }
 	}
@@ -268,7 +277,8 @@ func c15Monitor(r *mc.Run, c lockCfg) engb.Monitor {
 				exiting := st == lockingtypes.Inactive || st == lockingtypes.Tombstoned || gone[a] || remain.LT(post.Tokens[d].Threshold)
 				dur := params.UnlockDuration
 				if exiting {
-					dur = params.ExitingDuration
+					// "or the longer exit period": never less than the unlock period
+					dur = max(params.ExitingDuration, params.UnlockDuration)
 					gone[a] = true
 					r.Outcome("exiting-unlock")
 				} else {
@@ -353,6 +363,10 @@ func runC15(r *mc.Run) {
 	r.Assumptions = []string{"block times strictly increase (CometBFT rule); equal timestamps are explored as several requests in one block"}
 	completed := depth
 	for _, c := range c15Configs(r.Thorough()) {
+		if err := c.admitted(); err != nil {
+			r.Outcome("configuration-refused-by-the-chain's-parameter-validation:" + c.Name)
+			continue
+		}
 		e := &engb.Explorer{Run: r, NewRoot: c.newRoot, Menu: c15Menu(c, r.Thorough()), Monitor: c15Monitor(r, c), Depth: depth, ConformanceDepth: 2, WantMid: true, ExtraKey: c15Key}
 		if err := e.Explore(); err != nil {
 			panic(err)
